@@ -830,6 +830,12 @@ def oracle_sandbox(ctx):
     root = os.path.join(ctx.tmp, "sbx")
     os.makedirs(root, exist_ok=True)
     results = ctx.parallel(run_sandbox_case, [(c, root, ctx.repo) for c in cases])
+    for i, (case, res) in enumerate(zip(cases, results)):
+        if "exception" in res or res.get("ret") != 0 or "dump_error" in res:
+            # other users of this machine create and delete entries of / while the slim sandbox mounts them: run once more, alone
+            shutil.rmtree(res.get("base", os.path.join(root, "s%d" % case["idx"])), ignore_errors=True)
+            res = results[i] = run_sandbox_case((case, root, ctx.repo))
+            ctx.count("oracle_sandbox", "retried")
     for case, res in zip(cases, results):
         ok = judge_sandbox(ctx, case, res)
         ctx.case(dict(case, kind="sandbox"))
@@ -898,6 +904,157 @@ def correspond(ctx):
             done += 1
     ctx.trace_validated(done)
     correspond_pure(ctx)
+    correspond_projects(ctx)
+    correspond_sandbox(ctx)
+
+
+def _dep(pkg, label, valid, st):
+    storage = "dev/%s/%s/1/workspace" % (label, pkg)
+    return {"name": pkg, "valid": valid, "isCheckout": label == "src", "storage": storage, "exec": _exec_rel(st, storage)}
+
+
+def _exec_rel(st, storage):
+    for s_, e_ in [tuple(st["spec"]["workspace"])] + [tuple(x) for x in st["spec"].get("depMounts", [])]:
+        if s_ == storage:
+            return e_
+    return storage
+
+
+def project_desc(case, key, st):
+    """StepDesc of one executed step of a generated project, from the declaration"""
+    pkg, label = key.split("/")
+    spec = {"root": case["root"], "lib1": case["lib"], "lib2": case["lib"]}.get(pkg, {"has_checkout": False})
+    has_src = spec.get("has_checkout", False)
+    has_build = pkg != "toolprov"
+    src = _dep(pkg, "src", has_src, st)
+    build = _dep(pkg, "build", has_build, st)
+    if label == "src":
+        args, chain = [], []
+    elif label == "build":
+        args = [src] + ([_dep("lib1", "dist", True, st), _dep("lib2", "dist", True, st)] if pkg == "root" else [])
+        chain = [src]
+    else:
+        args, chain = [build], [build, src]
+    use_tool = pkg == "root" and ((label == "build" and spec["tool_build"]) or (label == "dist" and (spec["tool_build"] or spec["tool_package"])))
+    tools_ = [{"name": "mytool", "step": _dep("toolprov", "dist", True, st), "path": "bin", "libs": case["tool_libs"]}] if use_tool else []
+    fat = case["sandbox"] in ("yes", "dev", "strict")
+    return {"env": st["spec"]["env"], "valid": True, "isCheckout": label == "src", "args": args, "tools": tools_,
+            "sandbox": _dep("sbx", "dist", True, st) if fat else None, "chain": chain}
+
+
+def correspond_projects(ctx):
+    from gen import c13proj
+    reqs, checks = [], []
+    for case, res in PROJECTS:
+        if res.get("rc") != 0 or "steps" not in res:
+            continue
+        exp = c13proj.expected_steps(case, res["dir"], tools()["default_path"], "linux")
+        wl = sorted(c13proj.whitelist_of(case))
+        host = dict(case["host"])
+        host["HOME"] = res["home"]
+        cfg = [{"adds": case["wl_add"], "removes": case["wl_remove"]}]
+        any_spec = next(iter(res["steps"].values()))["spec"]
+        reqs.append({"op": "whitelist", "cfgs": cfg, "cli": case["cli_wl"]})
+        checks.append(("RecipeSet.envWhiteList + -e == Model.whiteListFold", {"project": case["idx"], "cfgs": cfg, "cli": case["cli_wl"]},
+                       sorted(any_spec["envWhiteList"]), lambda m: sorted(set(m["ok"]))))
+        for key, e in sorted(exp.items()):
+            st = res["steps"].get(key)
+            if st is None or "env" not in st:
+                continue
+            sp = st["spec"]
+            pkg, label = key.split("/")
+            # (1) tail of Recipe.prepare: the declared variables that are defined
+            full = dict(case["default_env"])
+            full.update(case["defines"])
+            full["BOB_HOST_PLATFORM"] = "linux"
+            full.update(case["root"]["environment"])
+            if pkg == "root":
+                full.update(case["root"]["private"])
+            full["BOB_RECIPE_NAME"] = full["BOB_PACKAGE_NAME"] = pkg
+            if pkg in ("root", "lib1", "lib2"):
+                allv, strong = c13proj.cumulative(({"root": case["root"], "lib1": case["lib"], "lib2": case["lib"]}[pkg])["vars"])
+                reqs.append({"op": "prune", "full": full, "strong": sorted(strong[label]), "weak": sorted(allv[label] - strong[label])})
+                checks.append(("step.spec env == Model.stepEnvOf(declared environment)", {"project": case["idx"], "step": key}, sp["env"],
+                               lambda m: m["env"]))
+            # (2) StepSpec.fromStep
+            reqs.append({"op": "fromstep", "desc": project_desc(case, key, st), "cwd": sp["workspace"][1]})
+            want = {"spec": {k: (sp[k] if k != "cwd" else sp["workspace"][1]) for k in
+                             ("env", "paths", "libraryPaths", "cwd", "args", "allPaths", "depPaths", "toolPaths")},
+                    "depMounts": sp["depMounts"]}
+            checks.append(("step.spec written by bob dev == Model.specOfStep / StepDesc.depMounts", {"project": case["idx"], "step": key, "sandbox": case["sandbox"]},
+                           want, lambda m: m))
+            # (3) the process environment handed to bash / the helper, and what the script saw
+            sandboxed = case["sandbox"] != "no"
+            if not sandboxed:
+                reqs.append({"op": "step", "spec": {"env": sp["env"], "paths": sp["paths"], "libraryPaths": sp["libraryPaths"],
+                                                    "cwd": sp["workspace"][1], "args": sp["args"], "allPaths": sp["allPaths"],
+                                                    "depPaths": sp["depPaths"], "toolPaths": sp["toolPaths"]},
+                             "pycwd": res["dir"], "keepEnv": False, "trace": False, "bash": "bash", "execScript": sp["scriptHint"],
+                             "preserve": case["preserve"], "whitelist": sp["envWhiteList"], "host": host, "extra": {},
+                             "defaults": {"PATH": tools()["default_path"]}})
+                cap = [c for c in res.get("capture", []) if c["argv"][:2] == ["bash", "--"] and
+                       os.path.normpath(c["argv"][2]) == os.path.normpath(os.path.join(res["dir"], sp["scriptHint"]))]
+                checks.append(("bob dev: script environment and Invoker process environment == Model", {"project": case["idx"], "step": key},
+                               {"env": strip_internal(st["env"]), "procEnv": cap[-1]["env"] if cap else None, "positional": st["args"]},
+                               lambda m: {"env": strip_internal(m["env"] or {}), "procEnv": m["procEnv"], "positional": m["positional"]}))
+        if case["root"]["fingerprint"] and res.get("fp_env") is not None:
+            cap = [c for c in res.get("capture", []) if c["argv"][:2] == ["bash", "-c"]]
+            if cap:
+                pkg_env = res["steps"]["root/dist"]["spec"]["env"] if "root/dist" in res["steps"] else {}
+                fp_proc = cap[-1]["env"]
+                reqs.append({"op": "fingerprint", "stepEnv": pkg_env, "fpVars": case["root"]["fpVars"], "procEnv": fp_proc})
+                script = cap[-1]["argv"][2]
+                got_env = strip_internal(res["fp_env"])
+                checks.append(("fingerprint script: preamble text and environment == Model.fingerprintPreamble", {"project": case["idx"]},
+                               {"env": got_env, "head": True},
+                               lambda m, script=script: {"env": strip_internal(m["env"] or {}), "head": script.startswith(m["preamble"] + "\n")}))
+    if not reqs:
+        return
+    replies = ctx.lean(DRIVER, reqs)
+    for (rel, case, want, view), m in zip(checks, replies):
+        ctx.case((rel, case))
+        got = view(m)
+        if got != want:
+            ctx.disagree(rel, case, want, got)
+        else:
+            ctx.count("corr_project", rel.split(" ==")[0][:40])
+    ctx.trace_validated(len(reqs))
+
+
+def correspond_sandbox(ctx):
+    reqs, checks = [], []
+    for case, res in SANDBOXED:
+        cap = [c for c in res.get("captured", []) if os.path.basename(c["argv"][0]) == "bob-namespace-sandbox"]
+        if not cap or "spec" not in res:
+            continue
+        argv = cap[-1]["argv"]
+        d = res["spec"]
+        tmp_dir = argv[2]
+        if case["mode"] == "slim":
+            tmp_dir = os.path.dirname(tmp_dir)
+        sep = argv.index("--")
+        req = {"op": "sandbox", "mode": "slim" if case["mode"] == "slim" else "fat", "pycwd": res["proj"], "tmpDir": tmp_dir,
+               "rootEntries": res["rootEntries"], "realScript": d["scriptHint"], "execScript": "/.script" if case["mode"] == "image" else d["scriptHint"],
+               "netAccess": d["netAccess"], "envFile": d["envFile"], "wsStorage": d["workspace"][0], "wsExec": d["workspace"][1],
+               "depMounts": d["depMounts"], "callArgs": argv[sep + 1:]}
+        if case["mode"] == "image":
+            sb = d["sandbox"]
+            req.update({"sandboxRoot": sb["root"], "isJenkins": False, "user": sb["user"],
+                        "hostMounts": [{"host": h, "sandbox": s_, "options": o} for h, s_, o in sb["hostMounts"]],
+                        "existing": [h for h, _, _ in sb["hostMounts"] if os.path.exists(h)]})
+        reqs.append(req)
+        checks.append((case, argv))
+    if not reqs:
+        return
+    for (case, argv), m in zip(checks, ctx.lean(DRIVER, reqs)):
+        ctx.case(("sandbox-argv", case))
+        if m["argv"] != argv[1:]:
+            ctx.disagree("helper argv built by Invoker.executeStep == Model (slimGroups/fatGroups/stepGroups)", case, argv[1:], m["argv"])
+        elif m["parsed"] is None or m["parsed"]["mounts"] != m["mounts"]:
+            ctx.disagree("Model.parseHelper(argv).mounts == the groups' mounts", case, m.get("parsed"), m["mounts"])
+        else:
+            ctx.count("corr_sandbox", case["mode"])
+    ctx.trace_validated(len(reqs))
 
 
 def correspond_pure(ctx):
